@@ -551,7 +551,10 @@ def fault_scenarios(cfg, maxsize):
                    "ctor_range 1 fwd 7,8,9", "ctor_range 1 inp 7,8,9"]
             if s:
                 ops += ["assign_n 0 %d v7" % max(s - 1, 0), "assign_range 0 fwd %s" % (",".join(["7"] * (s - 1)) or "-"),
-                        "push_back 0 o0", "erase 0 0", "erase_range 0 0 1"]
+                        "push_back 0 o0", "erase 0 0", "erase_range 0 0 1",
+                        # the argument is an element of the vector itself (moved from / copied before the vector grows)
+                        "push_back_rv 0 o0", "push_back_rv 0 o%d" % (s - 1), "emplace_back 0 o%d" % (s - 1),
+                        "insert_rv 0 0 o%d" % (s - 1), "insert_rv 0 %d o0" % s, "insert 0 %d o0" % (s // 2), "emplace 0 0 o%d" % (s - 1)]
             for p in sorted(set([0, s // 2, s])):
                 ops += ["insert 0 %d v7" % p, "insert_rv 0 %d v7" % p, "emplace 0 %d v7" % p, "insert_n 0 %d 2 v7" % p,
                         "insert_n 0 %d 3 v7" % p, "insert_range 0 %d fwd 7,8,9" % p, "insert_range 0 %d inp 7,8" % p]
